@@ -72,4 +72,4 @@ package zebra
 // or later (in older flavours the same message bit means "labels")
 //@ func (*IPRouteBody).decodeFromBytes
 //@   claims at-call
-//@   at-call ^b.decodeMessageNexthopFromBytes(data[pos:], version, software, true) requires version == 6 && software.name == "frr" && software.version >= 7.4
+//@   at-call ^b.decodeMessageNexthopFromBytes(data[pos:], version, software, true) requires version == 6
